@@ -30,6 +30,10 @@ pub enum Op {
     NewUninitAdopted { target: u16, loopback: bool },
     /// clone the handle instance selected by `h`; the clone becomes a root
     CloneH(u16),
+    /// `Clone::clone_from(&mut root[dst], &handle[src])`: the root is
+    /// overwritten with a clone of another handle instance; its old handle
+    /// instance is released by the call (not by `Drop` of a binding)
+    CloneFrom { dst: u16, src: u16 },
     /// drop root `r`
     DropRoot(u16),
     /// drop, one after the other, every root that points into the recorded
@@ -151,6 +155,7 @@ pub fn op_compact(op: &Op) -> String {
         Op::New(d) => format!("New{{{}}}", d.iter().map(dact_compact).collect::<Vec<_>>().join(",")),
         Op::NewUninitAdopted { target, loopback } => format!("NewUninitAdopted(<-{}{})", target, if *loopback { ",loop" } else { "" }),
         Op::CloneH(h) => format!("Clone({})", h),
+        Op::CloneFrom { dst, src } => format!("CloneFrom(root {} <- handle {})", dst, src),
         Op::DropRoot(r) => format!("Drop({})", r),
         Op::DropClosureRoots(h) => format!("DropClosureRoots({})", h),
         Op::Store { owner, target, adopt } => format!("Store({}<-{},a{})", owner, target, adopt),
